@@ -43,6 +43,13 @@ CHECKS["C15"] = dict(
    note="Restricted to constructs on which decoders agree (unique string keys, no anchors/tags, 64-bit integers, homogeneous TOML arrays); corrupted-YAML accept/reject disagreements are counted, not alarmed; an empty data file is excluded.",
    ref="DESIGN.md section 5 C15")
 
+CHECKS["C14"] = dict(
+   level="fault_enumeration",
+   technique="property-based testing with fault enumeration: converters x (un)convertible values x pre-existing artifact states, out-vs-convert relation and directory snapshots as oracle",
+   text="For every registered converter, generated values (1 in 4 deliberately unconvertible, enumerated per converter) are built with 0, 1 or 2 out statements in directories with no, an earlier-build or a foreign pre-existing artifact and four file stems, in-process and (1 in 8) by the real binary; the directory is snapshotted before and after: one new file with the documented extension, byte-equal to the string `convert` evaluates to; a failed conversion leaves the directory byte-identical; a second out fails the build.",
+   note="Convertibility is decided by evaluating `convert <fmt> <value>` (the relation the property states); extensions come from reference/converters.md.",
+   ref="DESIGN.md section 5 C14")
+
 PENDING = {}
 
 def main():
